@@ -691,7 +691,7 @@ func GenValue(rt *rapid.T, typeName string, o GenOpts) (*Value, *Features) {
 // DefaultOpts: list-size policy per tier.
 func DefaultOpts(m Mode) GenOpts {
 	if Thorough() {
-		return GenOpts{Mode: m, MaxList: 70000, BigProb: 12, HugeProb: 25, HugeObj: 150}
+		return GenOpts{Mode: m, MaxList: 70000, BigProb: 15, HugeProb: 60, HugeObj: 2500}
 	}
 	return GenOpts{Mode: m, MaxList: 70000, BigProb: 40, HugeProb: 100}
 }
